@@ -2,6 +2,7 @@ import numpy as np
 from dataclasses import dataclass, field, fields
 from typing import Union
 from math import isclose
+from fractions import Fraction as PyFraction
 
 from .settings import *
 
@@ -72,6 +73,10 @@ class Fraction:
             return Fraction(self.num*other.num, self.den*other.den)
         elif isinstance(other, tuple):
             return Fraction(self.num*other[0], self.den*other[1])
+        elif isinstance(other, (float, np.floating)) and not float(other).is_integer():
+            # non-integer floats (e.g. 0.5) are converted to their rational form
+            num, den = PyFraction(float(other)).limit_denominator(1000).as_integer_ratio()
+            return Fraction(self.num*num, self.den*den)
         else:
             return Fraction(self.num*other, self.den)
 
@@ -80,6 +85,9 @@ class Fraction:
             return Fraction(self.num*other.den, self.den*other.num)
         elif isinstance(other, tuple):
             return Fraction(self.num*other[1], self.den*other[0])
+        elif isinstance(other, (float, np.floating)) and not float(other).is_integer():
+            num, den = PyFraction(float(other)).limit_denominator(1000).as_integer_ratio()
+            return Fraction(self.num*den, self.den*num)
         else:
             return Fraction(self.num, self.den*other)
     
